@@ -321,5 +321,10 @@ def run(rep: Report, tier: str) -> None:  # noqa: C901
     # ---- R03.11 the builder: GROUP BY columns and HAVING conditions reach the SQL (real class, evaluated) ----
     rep.rule("R03.11", "SQLBuilder: group_by() columns and having() conditions reach the SQL; HAVING does not depend on a non-empty GROUP BY")
     transp.builder_contract(P, rep, "R03.11", parts="hg")
+    # ---- R03.12 what an aggregation reads is a dependency of its statement (dependency analysis, shared with C12) ----
+    rep.rule("R03.12", "dependency analysis descends into the operand of an aggregation / aggr clause on every path; script-level values read there become inputs of every reader")
+    from sa.checks.c12 import traversal_on_every_path, unknown_resolution
+    traversal_on_every_path(P, rep, "R03.12", {"Aggregation", "RegularAggregation", "Analytic"})
+    unknown_resolution(P, rep, "R03.12")
     rep.assumptions = ["DuckDB's aggregates of the same name implement the VTL aggregate operators (null measure values ignored)",
                        "SQLBuilder.having() conjoins conditions (read from sql_builder.py: _having_conditions.append)"]
